@@ -1,15 +1,17 @@
-(* Validate.v — two independent meanings.
-   [rule_sem]: what a j5s property declaration says about a value of the
-   compiled field (schema.proto comments + README): bounds inclusive unless
-   exclusive* = true, lengths in characters / bytes, item counts, uniqueness,
-   enum membership by option name, key formats, required presence.
-   [validate_sem]: what bufbuild/protovalidate-go v0.9.2 decides for the subset
-   of (buf.validate.field) j5 emits, read off field.go (required / ignore-empty
-   / zero value handling) and the CEL expressions attached to the rule fields
-   of validate.proto (int*.lt/lte/gt/gte incl. the combined and the inverted
-   "exclusive range" forms, string.min_len/max_len/pattern/uuid, bytes lengths,
-   bool.const, enum.in/not_in + defined_only, the repeated rules).
-   Regular expressions are a Section variable. No proofs here. *)
+(* Validate.v — [validate_sem]: what bufbuild/protovalidate-go v0.9.2 returns for
+   the subset of (buf.validate.field) j5 emits, read off field.go (required /
+   ignore-empty / zero value handling), message.go + error_utils.go (a
+   compilation error of any constraint of the message type is returned for every
+   message; a runtime error aborts the evaluation and replaces all violations)
+   and the CEL expressions attached to the rule fields of validate.proto
+   (int*.lt/lte/gt/gte incl. the combined and the inverted "exclusive range"
+   forms, string.min_len/max_len (this.size(): code points of the UTF-8 text)
+   /pattern/uuid, bytes lengths, bool.const, enum.in/not_in + defined_only, the
+   repeated rules incl. unique(), which has no overload for lists of messages).
+   The verdict is three-valued: accept / reject / error (RulesDecl.verdict).
+   The declared meaning is NOT here: model/RulesSpec.v.
+   The regular expression engine is a pair of Section variables ([re_ok]: the
+   pattern compiles; [re_match]: it finds a match). No proofs here. *)
 From Coq Require Import String List NArith ZArith Bool.
 From J5V.lib Require Import Outcome.
 From J5V.model Require Import RulesDecl RulesWrite Id62.
@@ -18,6 +20,30 @@ Import ListNotations.
 Local Open Scope Z_scope.
 
 Definition len (s : str) : N := N.of_nat (length s).
+
+(* ---- strings on the wire: UTF-8 --------------------------------------------- *)
+Local Open Scope N_scope.
+Definition utf8_enc1 (c : N) : list N :=
+  if c <? 128 then [c]
+  else if c <? 2048 then [192 + c / 64; 128 + c mod 64]
+  else if c <? 65536 then [224 + c / 4096; 128 + (c / 64) mod 64; 128 + c mod 64]
+  else [240 + c / 262144; 128 + (c / 4096) mod 64; 128 + (c / 64) mod 64; 128 + c mod 64].
+Definition utf8_enc (s : str) : list N := flat_map utf8_enc1 s.
+(* utf8.RuneCountInString of valid UTF-8: the bytes that are not continuation bytes *)
+Definition is_cont (b : N) : bool := (128 <=? b) && (b <? 192).
+Definition rune_count (bs : list N) : N := N.of_nat (length (filter (fun b => negb (is_cont b)) bs)).
+(* CEL this.size() of a string value *)
+Definition cel_size (s : str) : N := rune_count (utf8_enc s).
+(* a Unicode scalar value *)
+Definition is_scalar (c : N) : bool := (c <? 55296) || ((57344 <=? c) && (c <? 1114112)).
+
+(* ---- floats (binary64 bit patterns) ----------------------------------------- *)
+Definition f_abs (x : N) : N := x mod 9223372036854775808.
+Definition f_nan (x : N) : bool := 9218868437227405312 <? f_abs x.
+(* Go ==, which is what a map[ref.Val] key comparison of types.Double uses *)
+Definition f_eq (x y : N) : bool :=
+  negb (f_nan x) && negb (f_nan y) && ((x =? y) || ((f_abs x =? 0) && (f_abs y =? 0))).
+Local Close Scope N_scope.
 
 Definition opt_leN (lo : option N) (n : N) : bool := match lo with Some m => (m <=? n)%N | None => true end.
 Definition opt_geN (hi : option N) (n : N) : bool := match hi with Some m => (n <=? m)%N | None => true end.
@@ -30,7 +56,8 @@ Definition is_zero (v : value) : bool :=
   | VBytes b => match b with [] => true | _ => false end
   | VBool b => negb b
   | VEnum n => n =? 0
-  | VMsg => false
+  | VFloat x => (x =? 0)%N         (* protoreflect isSet: v != 0 || Signbit(v): -0 is set *)
+  | VMsg _ => false
   end.
 
 Definition value_eqb (a b : value) : bool :=
@@ -40,32 +67,18 @@ Definition value_eqb (a b : value) : bool :=
   | VBytes x, VBytes y => str_eqb x y
   | VBool x, VBool y => Bool.eqb x y
   | VEnum x, VEnum y => x =? y
+  | VFloat x, VFloat y => f_eq x y
+  | VMsg x, VMsg y => (x =? y)%N
   | _, _ => false
   end.
+Definition is_msg_value (v : value) : bool := match v with VMsg _ => true | _ => false end.
 
 Definition memZ (z : Z) (l : list Z) : bool := existsb (Z.eqb z) l.
 Definition mem_str (s : str) (l : list str) : bool := existsb (str_eqb s) l.
 
-(* ---- the id62 shape and the uuid shape ------------------------------------ *)
-(* the published id62 pattern, decided by C20's matcher *)
-Definition id62_shape (s : str) : bool :=
-  match parse_pattern Id62Gen.pattern_string with
-  | Some p => matches p s
-  | None => false
-  end.
-
+(* ---- string.uuid -------------------------------------------------------------- *)
 Definition is_hex (c : N) : bool :=
   ((48 <=? c) && (c <=? 57) || (97 <=? c) && (c <=? 102) || (65 <=? c) && (c <=? 70))%N.
-
-(* declared meaning of key:uuid: the canonical textual form 8-4-4-4-12 *)
-Fixpoint uuid_at (pos : nat) (s : str) : bool :=
-  match s with
-  | [] => Nat.eqb pos 36
-  | c :: r =>
-      (if Nat.eqb pos 8 || Nat.eqb pos 13 || Nat.eqb pos 18 || Nat.eqb pos 23
-       then N.eqb c 45 else is_hex c) && uuid_at (S pos) r
-  end.
-Definition is_uuid (s : str) : bool := uuid_at 0 s.
 
 (* protovalidate's string.uuid: the regex
    ^[0-9a-fA-F]{8}-[0-9a-fA-F]{4}-[0-9a-fA-F]{4}-[0-9a-fA-F]{4}-[0-9a-fA-F]{12}$
@@ -92,14 +105,7 @@ Definition uuid_regex (s : str) : bool :=
   | _ => false
   end.
 
-(* ---- uniqueness, two formulations ----------------------------------------- *)
-(* declared: the items are pairwise different *)
-Fixpoint distinct (vs : list value) : bool :=
-  match vs with
-  | [] => true
-  | v :: r => negb (existsb (value_eqb v) r) && distinct r
-  end.
-(* protovalidate's unique(): scan, remembering what was seen *)
+(* ---- repeated.unique: scan, remembering what was seen (uniqueScalar / uniqueBytes) --- *)
 Fixpoint unique_scan (seen : list value) (vs : list value) : bool :=
   match vs with
   | [] => true
@@ -110,109 +116,25 @@ Fixpoint unique_scan (seen : list value) (vs : list value) : bool :=
 (* numbers the compiled enum defines: 0 (UNSPECIFIED) and 1..n *)
 Definition defined_numbers (env : enum_env) : list Z :=
   0 :: map (fun i => Z.of_nat i) (seq 1 (length (ee_options env))).
-(* full name of the option with number n (n >= 1) *)
-Definition option_name (env : enum_env) (n : Z) : option str :=
-  if (1 <=? n) && (n <=? Z.of_nat (length (ee_options env)))
-  then match nth_error (ee_options env) (Z.to_nat (n - 1)) with
-       | Some o => Some (with_prefix env o)
-       | None => None
-       end
-  else None.
-Definition names_full (env : enum_env) (l : list str) : list str := map (with_prefix env) l.
+
+Definition of_bool (b : bool) : verdict := if b then VAccept else VReject.
+
+(* errors win over violations (mergeViolations returns a non-validation error
+   as it is), and the compilation error of the message evaluator is checked
+   before anything is evaluated *)
+Definition vworst (a b : verdict) : verdict :=
+  match a, b with
+  | VError ECompile, _ | _, VError ECompile => VError ECompile
+  | VError ERuntime, _ | _, VError ERuntime => VError ERuntime
+  | VReject, _ | _, VReject => VReject
+  | VAccept, VAccept => VAccept
+  end.
 
 Section Sem.
-(* [re_match p s]: the regular expression [p] (RE2 syntax, as Go regexp / CEL
-   matches) finds a match in [s] *)
+(* the regular expression engine (Go regexp, which CEL's matches() uses):
+   [re_ok p]: p compiles; [re_match p s]: p finds a match in s (meaningful when re_ok p) *)
+Variable re_ok : str -> bool.
 Variable re_match : str -> str -> bool.
-
-(* ======================= declared meaning ================================== *)
-Definition int_rule_ok (r : int_rules) (z : Z) : bool :=
-  match ir_min r with
-  | None => true
-  | Some m => if is_true (ir_xmin r) then m <? z else m <=? z
-  end &&
-  match ir_max r with
-  | None => true
-  | Some m => if is_true (ir_xmax r) then z <? m else z <=? m
-  end.
-
-Definition str_rule_ok (r : str_rules) (s : str) : bool :=
-  opt_leN (sr_min r) (len s) && opt_geN (sr_max r) (len s) &&
-  match sr_pat r with Some p => re_match p s | None => true end.
-
-Definition len_rule_ok (r : len_rules) (b : str) : bool :=
-  opt_leN (lr_min r) (len b) && opt_geN (lr_max r) (len b).
-
-Definition enum_rule_ok (env : enum_env) (r : enum_rules) (n : Z) : bool :=
-  match er_in r with
-  | [] => true
-  | l => match option_name env n with Some nm => mem_str nm (names_full env l) | None => false end
-  end &&
-  match option_name env n with Some nm => negb (mem_str nm (names_full env (er_notin r))) | None => true end.
-
-Definition key_ok (f : kfmt) (s : str) : bool :=
-  match f with
-  | KInformal => true
-  | KCustom p => re_match p s
-  | KUuid => is_uuid s
-  | KId62 => id62_shape s
-  end.
-
-(* a value satisfies the declared rules of its field type *)
-Definition ty_ok (env : enum_env) (t : fty) (v : value) : bool :=
-  match t, v with
-  | TInt _ (Some r) _, VInt z => int_rule_ok r z
-  | TStr _ (Some r) _, VStr s => str_rule_ok r s
-  | TBytes (Some r), VBytes b => len_rule_ok r b
-  | TBool (Some (Some c)) _, VBool b => Bool.eqb b c
-  | TEnum r _, VEnum n =>
-      memZ n (defined_numbers env) &&
-      match r with Some r => enum_rule_ok env r n | None => true end
-  | TKey (Some f) _ _, VStr s => key_ok f s
-  | _, _ => true
-  end.
-
-Definition is_primary (t : pty) : bool :=
-  match t with
-  | PSingle (TKey _ (Some e) _) | PArray _ _ (TKey _ (Some e) _) =>
-      match ek_type e with Some (EPrimary true) => true | _ => false end
-  | _ => false
-  end.
-
-Definition is_msg_ty (t : fty) : bool :=
-  match t with
-  | TDate _ _ | TDecimal _ _ | TTimestamp _ | TAny _ _ _ | TObject _ | TOneof _ => true
-  | _ => false
-  end.
-
-Definition arr_rule_ok (r : arr_rules) (vs : list value) : bool :=
-  opt_leN (ar_min r) (N.of_nat (length vs)) && opt_geN (ar_max r) (N.of_nat (length vs))
-  && (if is_true (ar_uniq r) then distinct vs else true).
-
-(* the declared meaning of one property for the value of its compiled field *)
-Definition rule_sem (env : enum_env) (d : prop) (fv : fvalue) : bool :=
-  let req := p_req d || is_primary (p_ty d) in
-  match p_ty d, fv with
-  | PSingle t, FAbsent => negb req
-  | PSingle t, FOne v =>
-      (* a required field must be populated: for an implicit-presence scalar
-         that means a non-zero value *)
-      (if req && negb (p_opt d || is_msg_ty t) then negb (is_zero v) else true)
-      && ty_ok env t v
-  | PArray r _ t, FMany vs =>
-      (if req then negb (match vs with [] => true | _ => false end) else true)
-      && match r with Some r => arr_rule_ok r vs | None => true end
-      && forallb (ty_ok env t) vs
-  | PMap r t, FMap kvs =>
-      (* the map field itself carries no key annotation: only an explicit required counts *)
-      (if p_req d then negb (match kvs with [] => true | _ => false end) else true)
-      && match r with
-         | Some r => opt_leN (mr_min r) (N.of_nat (length kvs)) && opt_geN (mr_max r) (N.of_nat (length kvs))
-         | None => true
-         end
-      && forallb (fun kv => ty_ok env t (snd kv)) kvs
-  | _, _ => true
-  end.
 
 (* ======================= protovalidate ===================================== *)
 Definition int_ok (ub : ubound) (lb : lbound) (z : Z) : bool :=
@@ -230,7 +152,7 @@ Definition int_ok (ub : ubound) (lb : lbound) (z : Z) : bool :=
   end.
 
 Definition str_ok (mn mx : option N) (pat : option str) (uuid : bool) (s : str) : bool :=
-  opt_leN mn (len s) && opt_geN mx (len s)
+  opt_leN mn (cel_size s) && opt_geN mx (cel_size s)
   && match pat with Some p => re_match p s | None => true end
   && (if uuid
       then (match s with [] => true | _ => uuid_regex s end)         (* string.uuid *)
@@ -249,27 +171,42 @@ Definition eval_scalar (defined : list Z) (t : tyc) (v : value) : bool :=
       (if d then memZ n defined else true)
       && (match cin with [] => true | _ => memZ n cin end)
       && negb (memZ n cnotin)
-  | CTimestamp, VMsg => true
+  | CTimestamp _ _, VMsg _ => true     (* j5 emits no bound; bounds are not modelled *)
   | _, _ => true
   end.
 
-Definition eval_tyc (defined : list Z) (t : tyc) (fv : fvalue) : bool :=
+(* does every pattern in the constraint compile? (the programs of a message type
+   are compiled when its evaluator is built) *)
+Fixpoint tyc_compiles (t : tyc) : bool :=
+  match t with
+  | CStr _ _ (Some p) _ => re_ok p
+  | CRep _ _ _ (Some it) => tyc_compiles it
+  | CMap _ _ (Some vt) => tyc_compiles vt
+  | _ => true
+  end.
+
+Definition eval_tyc (defined : list Z) (t : tyc) (fv : fvalue) : verdict :=
   match t, fv with
   | CRep mn mx uq items, FMany vs =>
-      opt_leN mn (N.of_nat (length vs)) && opt_geN mx (N.of_nat (length vs))
-      && (if is_true uq then unique_scan [] vs else true)
-      && match items with
-         | Some it => forallb (eval_scalar defined it) vs
-         | None => true
-         end
+      (* unique() has overloads for lists of bool / int / uint / double / string /
+         bytes only: on a non-empty list of messages the program fails *)
+      if is_true uq && existsb is_msg_value vs then VError ERuntime
+      else of_bool
+        (opt_leN mn (N.of_nat (length vs)) && opt_geN mx (N.of_nat (length vs))
+         && (if is_true uq then unique_scan [] vs else true)
+         && match items with
+            | Some it => forallb (eval_scalar defined it) vs
+            | None => true
+            end)
   | CMap mn mx values, FMap kvs =>
-      opt_leN mn (N.of_nat (length kvs)) && opt_geN mx (N.of_nat (length kvs))
-      && match values with
-         | Some vt => forallb (fun kv => eval_scalar defined vt (snd kv)) kvs
-         | None => true
-         end
-  | _, FOne v => eval_scalar defined t v
-  | _, _ => true
+      of_bool
+        (opt_leN mn (N.of_nat (length kvs)) && opt_geN mx (N.of_nat (length kvs))
+         && match values with
+            | Some vt => forallb (fun kv => eval_scalar defined vt (snd kv)) kvs
+            | None => true
+            end)
+  | _, FOne v => of_bool (eval_scalar defined t v)
+  | _, _ => VAccept
   end.
 
 (* FieldDescriptor.HasPresence, as observed on the linked descriptor *)
@@ -292,7 +229,8 @@ Definition zero_value (k : pkind) : value :=
   | KdBytes => VBytes []
   | KdBool => VBool false
   | KdEnum => VEnum 0
-  | _ => VMsg
+  | KdFloat | KdDouble => VFloat 0
+  | _ => VMsg 0
   end.
 Definition got (o : fout) (fv : fvalue) : fvalue :=
   match fv with
@@ -300,45 +238,53 @@ Definition got (o : fout) (fv : fvalue) : fvalue :=
   | _ => fv
   end.
 
-(* field.EvaluateMessage *)
-Definition validate_sem (defined : list Z) (o : fout) (fv0 : fvalue) : bool :=
+Definition field_compiles (o : fout) : bool :=
   match fo_val o with
+  | Some c => match c_ty c with Some t => tyc_compiles t | None => true end
   | None => true
+  end.
+
+(* field.EvaluateMessage, behind message.EvaluateMessage's m.Err check *)
+Definition validate_sem (defined : list Z) (o : fout) (fv0 : fvalue) : verdict :=
+  if negb (field_compiles o) then VError ECompile
+  else
+  match fo_val o with
+  | None => VAccept
   | Some c =>
       let fv := got o fv0 in
       let has := populated o fv in
-      if c_req c && negb has then false
-      else if has_presence o && negb has then true
+      if c_req c && negb has then VReject
+      else if has_presence o && negb has then VAccept
       else match c_ty c with
            | Some t => eval_tyc defined t fv
-           | None => true
+           | None => VAccept
            end
   end.
 
 (* a message: every field is validated on its own (j5 emits no message-level,
-   oneof-level or cross-field constraint) *)
-Fixpoint validate_obj (defined : list Z) (os : list fout) (fvs : list fvalue) : bool :=
+   oneof-level or cross-field constraint); the worst result wins *)
+Fixpoint validate_obj (defined : list Z) (os : list fout) (fvs : list fvalue) : verdict :=
   match os, fvs with
-  | [], [] => true
-  | o :: r, v :: s => validate_sem defined o v && validate_obj defined r s
-  | _, _ => false
-  end.
-Fixpoint rule_obj (env : enum_env) (ds : list prop) (fvs : list fvalue) : bool :=
-  match ds, fvs with
-  | [], [] => true
-  | d :: r, v :: s => rule_sem env d v && rule_obj env r s
-  | _, _ => false
+  | [], [] => VAccept
+  | o :: r, v :: s => vworst (validate_sem defined o v) (validate_obj defined r s)
+  | _, _ => VReject
   end.
 
 End Sem.
 
 (* ---- typing of values against a declaration ------------------------------- *)
+Definition is_msg_ty (t : fty) : bool :=
+  match t with
+  | TDate _ _ | TDecimal _ _ | TTimestamp _ _ | TAny _ _ _ | TObject _ _ | TOneof _ _ => true
+  | _ => false
+  end.
+
 Definition value_typed (t : fty) (v : value) : bool :=
   match t, v with
-  | TInt _ _ _, VInt _ | TStr _ _ _, VStr _ | TBytes _, VBytes _ | TBool _ _, VBool _
-  | TEnum _ _, VEnum _ | TKey _ _ _, VStr _ => true
-  | TFloat _ _, _ => false
-  | t, VMsg => is_msg_ty t
+  | TInt _ _ _, VInt _ | TBytes _, VBytes _ | TBool _ _, VBool _
+  | TEnum _ _, VEnum _ | TFloat _ _ _, VFloat _ => true
+  | TStr _ _ _, VStr s | TKey _ _ _, VStr s => forallb is_scalar s    (* proto3 strings are valid UTF-8 *)
+  | t, VMsg _ => is_msg_ty t
   | _, _ => false
   end.
 
@@ -351,9 +297,14 @@ Definition fvalue_typed (d : prop) (fv : fvalue) : bool :=
   | _, _ => false
   end.
 
-(* the regular expressions of the correspondence stream: ^[ranges]{n}$ *)
+(* ---- the engine of the correspondence stream --------------------------------- *)
+(* patterns of the form ^[ranges]{n}$ (C20's matcher); anything else does not
+   compile — the stream generates only patterns of that form and patterns Go's
+   regexp rejects *)
 Definition re_class_count (p s : str) : bool :=
   match parse_pattern p with
   | Some pp => matches pp s
   | None => false
   end.
+Definition re_class_ok (p : str) : bool :=
+  match parse_pattern p with Some _ => true | None => false end.
